@@ -35,9 +35,7 @@ func (x *Exec) EnableMonitor(c10 bool) *Monitor {
 	if f := m.snapshot("open"); f != nil {
 		m.Fail = f
 	}
-	t := &Tap{}
-	t.OnIO = append(t.OnIO, m.onIO)
-	SetTap(t)
+	x.Tap.OnIO = append(x.Tap.OnIO, m.onIO)
 	return m
 }
 
